@@ -33,11 +33,14 @@ theorem boundedGo_le {E : Ext} {L : Nat} {p : ParmSpec} {data : List Nat} :
   induction fs with
   | nil =>
     intro i cur o h hc
-    simp only [boundedGo, Res.ok.injEq] at h
-    subst h
+    simp only [boundedGo] at h
     cases cur with
-    | none => simp
-    | some c => simpa using hc c rfl
+    | none =>
+      simp only [copyWithLimit] at h
+      split at h
+      · cases h
+      · cases h; omega
+    | some c => cases h; exact hc _ rfl
   | cons f fs ih =>
     intro i cur o h _
     simp only [boundedGo] at h
@@ -85,26 +88,102 @@ without a check.  Codes `65, EOD` with limit 0 give one byte.  (The post-filter 
 theorem C08_lzw_first_code_unchecked_witness :
     lzwDec 0 true [0x20, 0xC0, 0x40] = .ok [65] := by decide +kernel
 
-/-! ## 1b. Panics -/
+/-! ## 1b. Panics
 
-/- FULL: `decodeStreamWithLimit E data fs p L ≠ .panic q` for all inputs.  Not true of the code:
-   two checked-arithmetic overflows are reachable (F1, F2; both also listed under C01). -/
+The two overflows that were reachable (ASCII85 group value ≥ 2^32: C08-F1; `bpc * colors` in the PNG
+predictor: C08-F2) have been repaired in the library (checked arithmetic → `StreamDecodeError`); the
+model mirrors the repaired code and the statement is now proved in full. -/
 
-/-- The ASCIIHex, RunLength and LZW bounded decoders never panic, for any input and limit. -/
-theorem C08_decoders_never_panic_partial (L : Nat) (e : Bool) (d : List Nat) (q : Pan) :
-    hexDec L d ≠ .panic q ∧ rlDec L d ≠ .panic q ∧ lzwDec L e d ≠ .panic q :=
-  ⟨hexGo_no_panic L q 0 _, rlGo_no_panic L q _ 0 d, lzwGo_no_panic L e q _ 0 _⟩
+/-- an inflate that does not panic itself -/
+def ExtNoPanic (E : Ext) : Prop := ∀ x q, E.zlib x ≠ .panic q ∧ E.recover x ≠ .panic q
 
-/-- F1: `uuuuu~>` (multiply overflow) and `s9!!!~>` (add overflow) panic in the bounded path. -/
-theorem C08_witness_a85_overflow_panics :
-    decodeStreamWithLimit noExt [117,117,117,117,117,126,62] (.single .a85) .none 4 = .panic .mul ∧
-    decodeStreamWithLimit noExt [115,57,33,33,33,126,62] (.single .a85) .none 4 = .panic .add := by
+theorem Res.bind_panic {α β} {r : Res α} {f : α → Res β} {q : Pan} :
+    r.bind f = .panic q ↔ r = .panic q ∨ ∃ a, r = .ok a ∧ f a = .panic q := by
+  cases r <;> simp [Res.bind]
+
+theorem boundedStage_no_panic {E : Ext} (hE : ExtNoPanic E) (L : Nat) (input : List Nat) (f : FName)
+    (p : Option Dict) (q : Pan) : boundedStage E L input f p ≠ .panic q := by
+  unfold boundedStage
+  intro h
+  simp only [Res.bind_panic] at h
+  rcases h with h | ⟨dec, _, h⟩
+  · cases f
+    case flate =>
+      simp only [decodeFlateWithLimit, Res.bind_panic] at h
+      rcases h with h | ⟨z, _, h⟩
+      · exact (hE input q).1 h
+      · cases z <;> simp at h
+        split at h <;> cases h
+    case hex => exact hexGo_no_panic L q 0 _ h
+    case a85 => exact a85Go_no_panic L q 0 [] _ h
+    case lzw => exact lzwGo_no_panic L _ q _ 0 _ h
+    case rl => exact rlGo_no_panic L q _ 0 _ h
+    all_goals cases h
+  · rcases h with h | ⟨r, _, h⟩
+    · split at h
+      · split at h
+        · split at h
+          · exact applyPredictor_no_panic _ _ _ _ h
+          · cases h
+        · cases h
+      · cases h
+    · split at h <;> cases h
+
+theorem boundedGo_no_panic {E : Ext} (hE : ExtNoPanic E) (L : Nat) (p : ParmSpec) (data : List Nat) (q : Pan) :
+    ∀ (fs : List FName) (i : Nat) (cur : Option (List Nat)), boundedGo E L p data i fs cur ≠ .panic q := by
+  intro fs
+  induction fs with
+  | nil =>
+    intro i cur h
+    simp only [boundedGo] at h
+    cases cur with
+    | none => simp only [copyWithLimit] at h; split at h <;> cases h
+    | some c => cases h
+  | cons f fs ih =>
+    intro i cur h
+    simp only [boundedGo] at h
+    split at h
+    · cases h
+    · rw [Res.bind_panic] at h
+      rcases h with h | ⟨r, _, h⟩
+      · exact boundedStage_no_panic hE _ _ _ _ _ h
+      · exact ih _ _ h
+
+/-- **The bounded decoder never panics** — any data, filters, parameters, limit; the only assumption
+is that the external inflate does not. -/
+theorem C08_bounded_never_panics (E : Ext) (hE : ExtNoPanic E) (data : List Nat) (fs : FilterSpec)
+    (p : ParmSpec) (L : Nat) (q : Pan) : decodeStreamWithLimit E data fs p L ≠ .panic q := by
+  unfold decodeStreamWithLimit
+  intro h
+  split at h
+  · simp only [copyWithLimit] at h; split at h <;> cases h
+  · cases h
+  · exact boundedGo_no_panic hE _ _ _ _ _ _ _ h
+  · split at h
+    · cases h
+    · exact boundedGo_no_panic hE _ _ _ _ _ _ _ h
+
+example : ExtNoPanic noExt := fun _ _ => ⟨by simp [noExt], by simp [noExt]⟩
+
+/-- every single bounded decoder, for any input and limit -/
+theorem C08_decoders_never_panic (L : Nat) (e : Bool) (d : List Nat) (q : Pan) :
+    hexDec L d ≠ .panic q ∧ a85Dec L d ≠ .panic q ∧ rlDec L d ≠ .panic q ∧ lzwDec L e d ≠ .panic q :=
+  ⟨hexGo_no_panic L q 0 _, a85Go_no_panic L q 0 [] _, rlGo_no_panic L q _ 0 d, lzwGo_no_panic L e q _ 0 _⟩
+
+/-- regression for C08-F1: the unchecked sum of the unrepaired code panicked on `uuuuu` (multiply)
+and `s9!!!` (add); `ascii85_group_value` returns a decode error, and so does the whole bounded path. -/
+theorem C08_regression_a85_overflow :
+    a85SumOld 0 0 [117,117,117,117,117] = .panic .mul ∧ a85SumOld 0 0 [115,57,33,33,33] = .panic .add ∧
+    decodeStreamWithLimit noExt [117,117,117,117,117,126,62] (.single .a85) .none 4 = .err .decode ∧
+    decodeStreamWithLimit noExt [115,57,33,33,33,126,62] (.single .a85) .none 4 = .err .decode := by
   decide +kernel
 
-/-- F2: `/Predictor 12 /Colors -1` behind LZW: `bpc * colors` = 8·(2^64−1) overflows usize. -/
-theorem C08_witness_png_bpp_overflow_panics :
+/-- regression for C08-F2: `/Predictor 12 /Colors -1` behind LZW — `bpc * colors` = 8·(2^64−1) does not
+fit a usize (the unrepaired code multiplied unchecked and panicked); now a decode error. -/
+theorem C08_regression_png_bpp_overflow :
+    asUsize 8 * asUsize (-1) ≥ two64 ∧
     decodeStreamWithLimit noExt [0x80, 0x00, 0x80, 0xF0, 0x10] (.single .lzw)
-      (.dict { predictor := .int 12, colors := .int (-1) }) 10 = .panic .mul := by
+      (.dict { predictor := .int 12, colors := .int (-1) }) 10 = .err .decode := by
   decide +kernel
 
 /-! ## 2. The result does not depend on the limit (as long as it fits) -/
@@ -163,7 +242,16 @@ theorem boundedGo_mono {E : Ext} {L L' : Nat} (hLL : L ≤ L') {p : ParmSpec} {d
       boundedGo E L p data i fs cur = .ok o → boundedGo E L' p data i fs cur = .ok o := by
   intro fs
   induction fs with
-  | nil => intro i cur o h; simpa [boundedGo] using h
+  | nil =>
+    intro i cur o h
+    simp only [boundedGo] at h ⊢
+    cases cur with
+    | none =>
+      simp only [copyWithLimit] at h ⊢
+      split at h
+      · cases h
+      · cases h; rw [if_neg (by omega)]
+    | some c => exact h
   | cons f fs ih =>
     intro i cur o h
     simp only [boundedGo] at h ⊢
@@ -192,14 +280,6 @@ theorem C08_bounded_mono (E : Ext) (data : List Nat) (fs : FilterSpec) (p : Parm
 
 /-! ## 3. Bounded = unbounded -/
 
-/-- no stage other than Flate/LZW carries an integer /Predictor (the bounded path ignores it there,
-the unbounded path applies it: finding C08-F4) -/
-def predOK (p : ParmSpec) : Nat → List FName → Prop
-  | _, [] => True
-  | i, f :: fs =>
-    (f = .flate ∨ f = .lzw ∨ ∀ d, filterParams p i = some d → d.predictor.asInt = none) ∧
-    predOK p (i + 1) fs
-
 theorem ratioGuard_le_max : ratioGuardMinOutput ≤ maxDecompressedSize := by decide
 
 /-- decoder part of `apply_filter_with_params` -/
@@ -224,9 +304,9 @@ def stageDec (E : Ext) (data : List Nat) (f : FName) (p : Option Dict) : Res (Li
   | .dct => .ext 0
   | _ => .err .syntax
 
-/-- predictor part of `apply_filter_with_params` -/
-def stagePred (p : Option Dict) (result : List Nat) : Res (List Nat) :=
-  match p with
+/-- predictor part of `apply_filter_with_params` (Flate and LZW only) -/
+def stagePred (f : FName) (p : Option Dict) (result : List Nat) : Res (List Nat) :=
+  match (if f = .flate ∨ f = .lzw then p else none) with
   | some d =>
     match d.predictor.asInt with
     | some pr =>
@@ -239,7 +319,7 @@ def stagePred (p : Option Dict) (result : List Nat) : Res (List Nat) :=
   | none => .ok result
 
 theorem applyFilterWithParams_eq (E : Ext) (data : List Nat) (f : FName) (p : Option Dict) :
-    applyFilterWithParams E data f p = (stageDec E data f p).bind (stagePred p) := rfl
+    applyFilterWithParams E data f p = (stageDec E data f p).bind (stagePred f p) := rfl
 
 theorem tryStandardZlib_of_small {E : Ext} {input plain : List Nat}
     (hz : E.zlib input = .ok (some plain)) (hpl : plain.length ≤ ratioGuardMinOutput) :
@@ -255,7 +335,6 @@ theorem tryStandardZlib_of_small {E : Ext} {input plain : List Nat}
 
 theorem stage_bounded_to_unbounded {E : Ext} {L : Nat} (hL : L ≤ ratioGuardMinOutput)
     {input : List Nat} {f : FName} {p : Option Dict} {o : List Nat}
-    (hp : f = .flate ∨ f = .lzw ∨ ∀ d, p = some d → d.predictor.asInt = none)
     (h : boundedStage E L input f p = .ok o) : applyFilterWithParams E input f p = .ok o := by
   have hle := boundedStage_le h
   have hmax := ratioGuard_le_max
@@ -300,37 +379,35 @@ theorem stage_bounded_to_unbounded {E : Ext} {L : Nat} (hL : L ≤ ratioGuardMin
     all_goals cases hdec
   · -- the predictor
     unfold stagePred
-    cases p with
-    | none => simpa using hr
-    | some d =>
-      cases hpi : d.predictor.asInt with
-      | none =>
-        simp only [hpi] at hr ⊢
-        split at hr <;> simpa using hr
-      | some pr =>
-        simp only [hpi] at hr ⊢
-        rcases hp with hp | hp | hp
-        · subst hp; simp only [true_or, if_true] at hr; rw [hr]
-        · subst hp; simp only [or_true, if_true] at hr; rw [hr]
-        · have := hp d rfl; rw [hpi] at this; cases this
+    by_cases hf : f = .flate ∨ f = .lzw
+    · simp only [hf, if_true] at hr ⊢
+      cases p with
+      | none => simpa using hr
+      | some d =>
+        cases hpi : d.predictor.asInt with
+        | none => simp only [hpi] at hr ⊢; simpa using hr
+        | some pr => simp only [hpi] at hr ⊢; rw [hr]
+    · simp only [hf, if_false] at hr ⊢
+      simpa using hr
 
 theorem go_bounded_to_unbounded {E : Ext} {L : Nat} (hL : L ≤ ratioGuardMinOutput) {p : ParmSpec}
     {data : List Nat} :
     ∀ (fs : List FName) (i : Nat) (cur : Option (List Nat)) (o : List Nat),
-      boundedGo E L p data i fs cur = .ok o → (fs ≠ [] ∨ cur.isSome) → predOK p i fs →
-      chainGo E p i fs (cur.getD data) = .ok o := by
+      boundedGo E L p data i fs cur = .ok o → chainGo E p i fs (cur.getD data) = .ok o := by
   intro fs
   induction fs with
   | nil =>
-    intro i cur o h hne _
-    simp only [boundedGo, Res.ok.injEq] at h
-    rcases hne with hne | hne
-    · exact absurd rfl hne
-    · cases cur with
-      | none => cases hne
-      | some c => simpa [chainGo] using h
+    intro i cur o h
+    simp only [boundedGo] at h
+    cases cur with
+    | none =>
+      simp only [copyWithLimit] at h
+      split at h
+      · cases h
+      · simpa [chainGo] using h
+    | some c => simpa [chainGo] using h
   | cons f fs ih =>
-    intro i cur o h _ hp
+    intro i cur o h
     simp only [boundedGo] at h
     simp only [chainGo]
     split at h
@@ -339,29 +416,19 @@ theorem go_bounded_to_unbounded {E : Ext} {L : Nat} (hL : L ≤ ratioGuardMinOut
       rw [if_neg hf]
       rw [Res.bind_ok] at h ⊢
       obtain ⟨r, hr, h⟩ := h
-      refine ⟨r, stage_bounded_to_unbounded hL hp.1 hr, ?_⟩
-      simpa using ih (i + 1) (some r) o h (Or.inr rfl) hp.2
+      refine ⟨r, stage_bounded_to_unbounded hL hr, ?_⟩
+      simpa using ih (i + 1) (some r) o h
 
-/-- the chain has at least one filter and predictors appear only on Flate/LZW stages -/
-def plainShape (fs : FilterSpec) (p : ParmSpec) : Prop :=
-  match fs with
-  | .none => True
-  | .invalid => True
-  | .single f => predOK p 0 [f]
-  | .array l => ∀ names, filterNames l = some names → names ≠ [] ∧ predOK p 0 names
+/- The two shapes on which the paths used to differ — `/Filter []` (C08-F3) and an integer
+   /Predictor next to ASCIIHex/ASCII85/RunLength (C08-F4) — have been repaired in the library; the
+   hypothesis `plainShape` of the former `C08_bounded_eq_unbounded_partial` is gone.
+   `L ≤ RATIO_GUARD_MIN_OUTPUT` (64 MiB) remains: the Flate ratio heuristic exists only in the
+   unbounded path and only looks at outputs above 64 MiB. -/
 
-/- FULL: for every stream and every limit, `decode_with_limit = ok o → decode = ok o`.
-   Not true of the code: (F3) `/Filter []` — the bounded path returns the empty string, the
-   unbounded path the data; (F4) an integer /Predictor in the DecodeParms of ASCIIHex/ASCII85/
-   RunLength is applied by the unbounded path only.  Witnesses below; both are in
-   known_findings/C08.json.  `L ≤ RATIO_GUARD_MIN_OUTPUT` (64 MiB) keeps the Flate ratio heuristic,
-   which only the unbounded path has, out of the statement. -/
-
-/-- **Bounded agrees with unbounded**: whenever the bounded call succeeds (limit up to 64 MiB),
-the unbounded call returns the same bytes — for every chain with at least one filter whose
-predictors sit on Flate/LZW stages. -/
-theorem C08_bounded_eq_unbounded_partial (E : Ext) (data : List Nat) (fs : FilterSpec) (p : ParmSpec)
-    (L : Nat) (hL : L ≤ ratioGuardMinOutput) (hs : plainShape fs p) (o : List Nat)
+/-- **Bounded agrees with unbounded**: whenever the bounded call succeeds (limit up to 64 MiB), the
+unbounded call returns the same bytes — every data, filter shape, DecodeParms shape. -/
+theorem C08_bounded_eq_unbounded (E : Ext) (data : List Nat) (fs : FilterSpec) (p : ParmSpec)
+    (L : Nat) (hL : L ≤ ratioGuardMinOutput) (o : List Nat)
     (h : decodeStreamWithLimit E data fs p L = .ok o) : decodeStream E data fs p = .ok o := by
   unfold decodeStreamWithLimit at h
   unfold decodeStream
@@ -370,31 +437,31 @@ theorem C08_bounded_eq_unbounded_partial (E : Ext) (data : List Nat) (fs : Filte
     · cases h
     · exact h
   · cases h
-  · simpa using go_bounded_to_unbounded hL _ 0 none o h (Or.inl (by simp)) hs
+  · simpa using go_bounded_to_unbounded hL _ 0 none o h
   · split at h
     · cases h
-    · rename_i hn
-      have := hs _ hn
-      simpa using go_bounded_to_unbounded hL _ 0 none o h (Or.inl this.1) this.2
+    · simpa using go_bounded_to_unbounded hL _ 0 none o h
 
-example : plainShape (.array [some .a85, some .flate]) (.array [none, some { predictor := .int 12 }]) := by
-  intro names h
-  simp [filterNames] at h
-  subst h
-  simp [predOK, filterParams]
+example : decodeStreamWithLimit noExt [48,50,48,53,62] (.single .hex) (.dict { predictor := .int 12 }) 2 = .ok [2, 5] ∧
+    decodeStream noExt [48,50,48,53,62] (.single .hex) (.dict { predictor := .int 12 }) = .ok [2, 5] := by
+  decide +kernel
 
-/-- F3: `/Filter []` — bounded returns the empty string, unbounded returns the data. -/
-theorem C08_witness_empty_filter_array (E : Ext) :
-    decodeStreamWithLimit E [1, 2, 3] (.array []) .none 10 = .ok [] ∧
-    decodeStream E [1, 2, 3] (.array []) .none = .ok [1, 2, 3] := by
-  constructor <;> rfl
+/-- regression for C08-F3: `/Filter []` — both paths return the data (the unrepaired bounded path
+returned `result.unwrap_or_default()` = the empty string); a limit below the data size is an error. -/
+theorem C08_regression_empty_filter_array (E : Ext) :
+    decodeStreamWithLimit E [1, 2, 3] (.array []) .none 10 = .ok [1, 2, 3] ∧
+    decodeStream E [1, 2, 3] (.array []) .none = .ok [1, 2, 3] ∧
+    decodeStreamWithLimit E [1, 2, 3] (.array []) .none 2 = .err .decode := by
+  refine ⟨rfl, rfl, rfl⟩
 
-/-- F4: `/Filter /ASCIIHexDecode /DecodeParms << /Predictor 12 /Columns 1 >>` over `02 05 02 03`
-(hex): unbounded un-predicts to `05 08`, bounded returns the hex-decoded bytes. -/
-theorem C08_witness_predictor_on_hex :
+/-- regression for C08-F4: `/Filter /ASCIIHexDecode /DecodeParms << /Predictor 12 /Columns 1 >>` over
+`02 05 02 03` (hex): both paths now ignore the predictor (the unrepaired unbounded path un-predicted
+to `05 08`). -/
+theorem C08_regression_predictor_on_hex :
     let d : Dict := { predictor := .int 12, columns := .int 1 }
     decodeStreamWithLimit noExt [48,50,48,53,48,50,48,51,62] (.single .hex) (.dict d) 10 = .ok [2, 5, 2, 3] ∧
-    decodeStream noExt [48,50,48,53,48,50,48,51,62] (.single .hex) (.dict d) = .ok [5, 8] := by
+    decodeStream noExt [48,50,48,53,48,50,48,51,62] (.single .hex) (.dict d) = .ok [2, 5, 2, 3] ∧
+    applyPredictor [2, 5, 2, 3] 12 d = .ok [5, 8] := by
   decide +kernel
 
 /- FULL: "when a well-formed stream decodes fully within the limit the bounded result equals the
@@ -440,7 +507,7 @@ theorem C08_unbounded_is_bounded_at_ceiling (E : Ext) (d : List Nat) :
     applyFilterWithParams E d .rl none = rlDec maxDecompressedSize d ∧
     applyFilterWithParams E d .lzw none = lzwDec maxDecompressedSize true d := by
   have hb : ∀ r : Res (List Nat), (r.bind fun x => Res.ok x) = r := by intro r; cases r <;> rfl
-  refine ⟨by decide, ?_, ?_, ?_, ?_⟩ <;> simp only [applyFilterWithParams, earlyChange, hb]
+  refine ⟨by decide, ?_, ?_, ?_, ?_⟩ <;> simp [applyFilterWithParams, earlyChange, hb]
 
 /-- `read_to_end_limited` over any sequence of chunks: succeeds iff the total fits, and then returns
 the concatenation. -/
@@ -500,16 +567,14 @@ theorem stage_ceiling {E : Ext} (hE : RecoverBounded E) {data : List Nat} {f : F
           | some plain => cases hdec; have := hz _ hr; omega
         · have := hfl _ hdec; omega
     all_goals cases hdec
-  cases p with
-  | none => cases h; exact hdecle
-  | some d =>
-    simp only at h
-    split at h
+  split at h
+  · split at h
     · split at h
       · cases h; rename_i hap; have := applyPredictor_le _ _ _ _ hap; omega
       · cases h; exact hdecle
       all_goals cases h
     · cases h; exact hdecle
+  · cases h; exact hdecle
 
 /- FULL: `decodeStream E data fs p = ok o → (at least one filter) → o.length ≤ maxDecompressedSize`.
    Two things stand in the way, both facts about the code: (a) an LZW stage can exceed its limit
